@@ -27,6 +27,16 @@ fn widen<const N: usize>(x: &[u64; N]) -> [u64; W] {
     o
 }
 
+fn widen_slice(x: &[u64]) -> [u64; W] {
+    let mut o = [0u64; W];
+    let mut i = 0;
+    while i < x.len() && i < W {
+        o[i] = x[i];
+        i += 1;
+    }
+    o
+}
+
 /// contract model of the unsigned division (see file header); LQ/LR = concrete result lengths of this query
 fn divrem_contract_body<const LQ: usize, const LR: usize>(u: &BigUint, d: &BigUint) -> (BigUint, BigUint) {
     if vc::digits(d).is_empty() {
@@ -216,6 +226,7 @@ macro_rules! conv_shape {
         #[kani::proof]
         #[kani::unwind(34)]
         #[kani::stub(crate::biguint::division::div_rem_ref, $stub)]
+        #[kani::stub(crate::biguint::verif_common::symbolic, crate::biguint::verif_common::yes)]
         #[kani::stub(core::arch::x86_64::_addcarry_u64, vc::stub_addcarry)]
         #[kani::stub(core::arch::x86_64::_subborrow_u64, vc::stub_subborrow)]
         #[kani::stub(crate::biguint::addition::schoolbook_add_assign_x86_64, vc::model_add)]
@@ -233,6 +244,18 @@ macro_rules! conv_shape {
             let b = mkint($nb, &b0);
             let a_tc = tc::<W>(&a);
             let (q, r) = run_api($api, a, b);
+            if !vc::symbolic() {
+                // native replay of a counterexample: the stubs are not applied, so take (q, r, q*d) from the real unsigned routines
+                let (ua, ub) = (vc::mk_from(&a0), vc::mk_from(&b0));
+                let (uq, ur) = Integer::div_rem(&ua, &ub);
+                let up = &uq * &ub;
+                unsafe {
+                    GH_Q = widen_slice(vc::digits(&uq));
+                    GH_R = widen_slice(vc::digits(&ur));
+                    GH_P = widen_slice(vc::digits(&up));
+                    GH_CALLS = 1;
+                }
+            }
             kani::assert(unsafe { GH_CALLS } == 1, "VERIF expected exactly one unsigned division");
             let mut dw = [0u64; W];
             let mut i = 0;
